@@ -111,6 +111,19 @@ PLANS = {
                      rec("pegH", "peg", 20000, 10, 8, kinds=["str", "slice", "stream"]), rec("memoH", "memo", 10000, 10, 8), rec("rcvH", "rcv", 10000, 10, 8),
                      rec("repH", "rep", 10000, 9, 8)],
     },
+    "C14": {
+        "quick": [ex("txt", "txt", 1, 3, alphabet=["0", "1", "a", "_", "S", "R", "N", "E"], invariants=DEFAULT_INVARIANTS + ["TextRefines"], modes=["E"]),
+                  ex("txtb", "txtb", 1, 3, alphabet=["0", "a", "_", "S", "V"], kinds=["bytes"], invariants=DEFAULT_INVARIANTS + ["TextRefines"], modes=["E"]),
+                  ex("txtr", "txtr", 1, 3, alphabet=["0", "1", "7", "9", "f", "z"], kinds=["str", "bytes"], invariants=DEFAULT_INVARIANTS + ["TextRefines"], modes=["E"]),
+                  ex("txtc", "txtc", 1, 3, alphabet=["0", "1", "a", "S", "N", "+"], invariants=DEFAULT_INVARIANTS + ["TextRefines"], modes=["E"]),
+                  rec("txtR", "txt", 2500, 6, 8, invariants=DEFAULT_INVARIANTS + ["TextRefines"]), rec("txtbR", "txtb", 1500, 6, 8, kinds=["bytes"], invariants=DEFAULT_INVARIANTS + ["TextRefines"])],
+        "thorough": [ex("txt", "txt", 1, 4, alphabet=["0", "1", "a", "_", "S", "R", "N", "E", "+"], invariants=DEFAULT_INVARIANTS + ["TextRefines"]),
+                     ex("txtb", "txtb", 1, 4, alphabet=["0", "1", "a", "_", "S", "V", "N", "+"], kinds=["bytes"], invariants=DEFAULT_INVARIANTS + ["TextRefines"], modes=["E"]),
+                     ex("txtr", "txtr", 1, 4, alphabet=["0", "1", "7", "9", "a", "f", "z"], kinds=["str", "bytes"], invariants=DEFAULT_INVARIANTS + ["TextRefines"], modes=["E"]),
+                     ex("txtc", "txtc", 1, 4, alphabet=["0", "1", "a", "_", "S", "N", "R", "+"], invariants=DEFAULT_INVARIANTS + ["TextRefines"]),
+                     ex("txtw", "txt", 1, 3, alphabet=["T", "V", "F", "X", "L", "P", "N", "R", "a"], invariants=DEFAULT_INVARIANTS + ["TextRefines"], modes=["E"]),
+                     rec("txtR", "txt", 40000, 6, 12, invariants=DEFAULT_INVARIANTS + ["TextRefines"]), rec("txtbR", "txtb", 20000, 6, 12, kinds=["bytes"], invariants=DEFAULT_INVARIANTS + ["TextRefines"])],
+    },
     "C15": {
         "quick": [ex("ctx3", "ctx", 3, 3), rec("ctxR", "ctx", 1500, 8, 8)],
         "thorough": [ex("ctx3", "ctx", 3, 4), rec("ctxR", "ctx", 30000, 10, 10)],
@@ -127,8 +140,11 @@ PLANS = {
         "thorough": [ex("lbl3", "lbl", 3, 4), ex("lblT", "lblT", 1, 5, alphabet=["a", "b", "c"]), rec("lblR", "lbl", 30000, 10, 10)],
     },
     "C18": {
-        "quick": [ex("peg2", "peg", 2, 3), ex("emit3", "emit", 3, 3), rec("pegR", "peg", 1500, 8, 8), rec("emitR", "emit", 1500, 8, 8)],
-        "thorough": [ex("peg3", "peg", 3, 3), ex("emit4", "emit", 4, 3), rec("pegR", "peg", 20000, 10, 10), rec("emitR", "emit", 20000, 10, 10)],
+        "quick": [ex("peg2", "peg", 2, 3), ex("emit3", "emit", 3, 3), ex("txtc", "txtc", 1, 3, alphabet=["1", "a", "S", "+"], modes=["E"]),
+                  rec("pegR", "peg", 1500, 8, 8, kinds=["str", "slice", "stream"]), rec("emitR", "emit", 1500, 8, 8), rec("txtR", "txt", 800, 6, 8), rec("rcvR", "rcv", 800, 8, 8)],
+        "thorough": [ex("peg3", "peg", 3, 3), ex("emit4", "emit", 4, 3), ex("txtc", "txtc", 1, 4, alphabet=["1", "a", "S", "N", "+"]), ex("rcv3", "rcv", 3, 3, modes=["E"]),
+                     rec("pegR", "peg", 20000, 10, 10, kinds=["str", "slice", "stream"]), rec("emitR", "emit", 20000, 10, 10), rec("txtR", "txt", 10000, 6, 10),
+                     rec("rcvR", "rcv", 10000, 10, 10), rec("prattR", "pratt", 10000, 6, 10)],
     },
     "C19": {
         "quick": [ex("drp3", "drp", 3, 3, invariants=DEFAULT_INVARIANTS + ["NoLeak"]), ex("drpT", "drpT", 1, 3, invariants=DEFAULT_INVARIANTS + ["NoLeak"]),
